@@ -97,6 +97,6 @@ Fidelity ==
        /\ ~Foreign => \A i \in 2..Len(FC) : FC[i].snap = <<>> /\ FC[i].cons = <<>>
 
 CaseJson == LET L == Lines IN
-  ToJson([mode |-> Mode, lines |-> L, calls |-> FinalCallsOf(RunAll(L)), ndump |-> NDump])
+  ToJson([mode |-> Mode, lines |-> L, calls |-> FinalCallsOf(RunAll(L)), ndump |-> NDump, pp |-> PP(FinalCallsOf(RunAll(L)))])
 Emit == phase = "done" => PrintT("CASE " \o CaseJson)
 =============================================================================
